@@ -22,3 +22,11 @@ func trimStack(st []byte) string {
 	}
 	return strings.Join(ls, "\n")
 }
+
+func sortStrings(s []string) {
+	for i := 1; i < len(s); i++ {
+		for j := i; j > 0 && s[j] < s[j-1]; j-- {
+			s[j], s[j-1] = s[j-1], s[j]
+		}
+	}
+}
